@@ -2,7 +2,7 @@
    nodes are equally spaced in the interpolation variable ln x): sum_j |l_j| <= 5/4 on the whole block, any origin a and any spacing s > 0. *)
 From Coq Require Import Reals List Lra Lia Arith Bool Psatz.
 From Coquelicot Require Import Coquelicot.
-From Yad Require Import Base Interp InterpTheorems InterpReal.
+From Yad Require Import Base Interp InterpTheorems InterpReal InterpDeriv.
 Import ListNotations.
 Open Scope R_scope.
 Lemma three_node_lag a s tau : 0 < s ->
@@ -23,4 +23,27 @@ Proof.
   - assert (P0 : (tau - 1) * (tau - 2) / 2 <= 0) by nra.
     assert (P2 : 0 <= tau * (tau - 1) / 2) by nra.
     rewrite (Rabs_left1 _ P0). rewrite (Rabs_pos_eq _ P2). pose proof (pow2_ge_0 (tau - 3 / 2)) as Q. lra.
+Qed.
+(* the derivative version: sum_j |l_j'| <= 5 / s on the block (not tight: the maximum is 4 / s, at the end nodes) *)
+Lemma three_node_lag_u a s u : 0 < s ->
+  lag [a; a + s; a + 2 * s] 0 u = (u - (a + s)) * (u - (a + 2 * s)) / (2 * s * s) /\
+  lag [a; a + s; a + 2 * s] 1 u = (u - a) * ((a + 2 * s) - u) / (s * s) /\
+  lag [a; a + s; a + 2 * s] 2 u = (u - a) * (u - (a + s)) / (2 * s * s).
+Proof. intros Hs. unfold lag. cbn [lagv nth Nat.eqb]. cbn [fmul fdiv fsub f1 RFld]. repeat split; field; lra. Qed.
+Theorem uniform_quadratic_lebesgue1 a s tau : 0 < s -> 0 <= tau <= 2 -> lebesgue1 [a; a + s; a + 2 * s] (a + s * tau) <= 5 / s.
+Proof.
+  intros Hs Ht. unfold lebesgue1, dlag. cbn [length seq]. rewrite !rsum_cons, rsum_nil.
+  set (w := a + s * tau).
+  assert (D0 : Derive (lag [a; a + s; a + 2 * s] 0) w = (2 * tau - 3) / 2 * / s).
+  { apply is_derive_unique. apply (is_derive_ext (fun u => (u - (a + s)) * (u - (a + 2 * s)) / (2 * s * s))); [intros u; symmetry; apply (three_node_lag_u a s u Hs)|]. auto_derive; [exact I | unfold w; field; lra]. }
+  assert (D1 : Derive (lag [a; a + s; a + 2 * s] 1) w = (2 - 2 * tau) * / s).
+  { apply is_derive_unique. apply (is_derive_ext (fun u => (u - a) * ((a + 2 * s) - u) / (s * s))); [intros u; symmetry; apply (three_node_lag_u a s u Hs)|]. auto_derive; [exact I | unfold w; field; lra]. }
+  assert (D2 : Derive (lag [a; a + s; a + 2 * s] 2) w = (2 * tau - 1) / 2 * / s).
+  { apply is_derive_unique. apply (is_derive_ext (fun u => (u - a) * (u - (a + s)) / (2 * s * s))); [intros u; symmetry; apply (three_node_lag_u a s u Hs)|]. auto_derive; [exact I | unfold w; field; lra]. }
+  rewrite D0, D1, D2. pose proof (Rinv_0_lt_compat s Hs) as Hr. change (5 / s) with (5 * / s). set (r := / s) in *.
+  rewrite !Rabs_mult, (Rabs_pos_eq r) by lra.
+  assert (B0 : Rabs ((2 * tau - 3) / 2) <= 3 / 2) by (apply Rabs_le; lra).
+  assert (B1 : Rabs (2 - 2 * tau) <= 2) by (apply Rabs_le; lra).
+  assert (B2 : Rabs ((2 * tau - 1) / 2) <= 3 / 2) by (apply Rabs_le; lra).
+  pose proof (Rmult_le_compat_r r _ _ (Rlt_le _ _ Hr) B0). pose proof (Rmult_le_compat_r r _ _ (Rlt_le _ _ Hr) B1). pose proof (Rmult_le_compat_r r _ _ (Rlt_le _ _ Hr) B2). lra.
 Qed.
